@@ -209,6 +209,30 @@ static void exec(json d) {
         }
         json ds = json::array(); for (auto &x : digests) ds.push_back(jbytes(x));
         r["msg"] = d["msg"]; r["mode"] = mode; r["seed"] = seed; r["n"] = n; r["digests"] = ds; r["g"] = intact;
+    } else if (e == "Md5Big") {
+        // a message of 2^lg + delta bytes (>= 2^29 bytes = 2^32 bits: the bit count carries into its high word) hashed with ONE
+        // update() call, and the same bytes hashed in several ways of splitting them; pat = 0: zero bytes, else byte i = i*131+pat
+        int lg = d["lg"]; long long delta = d.value("delta", 0LL); int pat = d.value("pat", 0); int ways = d.value("ways", 3);
+        size_t N = ((size_t)1 << lg) + (size_t)delta;
+        uint8_t *buf = (uint8_t *)calloc(N, 1);
+        if (!buf) { fprintf(stderr, "cannot allocate %zu bytes\n", N); _exit(3); }
+        if (pat) for (size_t i = 0; i < N; ++i) buf[i] = (uint8_t)(i * 131 + (size_t)pat);
+        bool intact = true;
+        auto run = [&](const std::vector<size_t> &cuts) {              // cuts: ascending positions where a new update starts
+            tbox::crypto::MD5 md5; size_t prev = 0;
+            for (size_t c : cuts) { md5.update(buf + prev, c - prev); prev = c; }
+            md5.update(buf + prev, N - prev);
+            OutBuf ob(16); md5.finish(ob.p); intact = intact && ob.intact();
+            return Bytes(ob.p, ob.p + 16);
+        };
+        Bytes one = run({});
+        std::set<Bytes> splits; long long n = 0;
+        { std::vector<size_t> c; const size_t piece = ((size_t)1 << 27) + 13; for (size_t x = piece; x < N; x += piece) c.push_back(x); splits.insert(run(c)); ++n; }   // every piece < 2^29
+        if (ways >= 2) { splits.insert(run({71})); ++n; }                                           // a few bytes, then the big rest
+        if (ways >= 3) { splits.insert(run({(size_t)1 << 28, N - 3})); ++n; }                       // three updates
+        free(buf);
+        json ds = json::array(); for (auto &x : splits) ds.push_back(jbytes(x));
+        r["lg"] = lg; r["delta"] = delta; r["pat"] = pat; r["ways"] = ways; r["one"] = jbytes(one); r["splits"] = ds; r["n"] = n; r["g"] = intact;
     } else if (e == "Aes") {
         Bytes key = bytes_of(d["key"]), in = bytes_of(d["in"]);
         InBuf kb(key), ib(in); OutBuf o1(16), o2(16);
